@@ -171,3 +171,42 @@ def s10_static_defaults():
     for mod in (q, se, xj):
         mod.default_is_dynamic = lambda element_default, element_type=None: False
     _mark("S10")
+
+
+class _PyCsvWriter:
+    """S6: pure-Python model of csv.writer(f, quoting=csv.QUOTE_ALL) with the default dialect
+    (every field quoted, '"' doubled, CRLF line terminator).  Symbolic mode only: the C writer
+    would realise symbolic cell text.  Witnesses are replayed against the C writer."""
+
+    def __init__(self, f, quoting=None, **kw):
+        self.f = f
+
+    def writerow(self, row):
+        self.f.write(",".join('"' + ("" if x is None else str(x)).replace('"', '""') + '"' for x in row) + "\r\n")
+
+
+class _PyStringIO:
+    """S6: write-only text buffer (CrossHair's StringIO model realises text when a newline
+    translation mode is given)."""
+
+    def __init__(self, *a, **kw):
+        self.parts = []
+
+    def write(self, s):
+        self.parts.append(s)
+        return len(s)
+
+    def getvalue(self):
+        return "".join(self.parts)
+
+
+def s6_csv_writer():
+    if not SYMBOLIC:
+        return
+    import types
+
+    import pyxform.utils as ut
+
+    ut.csv = types.SimpleNamespace(writer=_PyCsvWriter, QUOTE_ALL=1)
+    ut.StringIO = _PyStringIO
+    _mark("S6")
